@@ -436,6 +436,7 @@ def execute_in_child(actors, granularity, decider, refs, repo_prefix, guard, max
         probes["probe.memo_candidate_changed:" + name] = 1
     return {
         "ok": ok, "errors": s.errors, "capped": s.capped, "steps": s.step, "taken": s.taken,
+        "lock_waits": s.lock_waits, "deadlocked": s.deadlocked,
         "switch_digest": runner23.digest(s.switch_log), "switches": len(s.switch_log),
         "states": sorted("|".join(t) for t in s.states)[:200],
         "same_func": s.same_func_preempt, "inv": inv, "mismatches": mismatches, "probes": probes,
@@ -739,7 +740,9 @@ class StateEngine(object):
                                  (i, k, short_op(op), field, n, actors[i]["env"], self.hashseed, clip(got, field, ref), clip(ref, field, got))))
         for i, k, what, msg in rep["inv"]:
             vio.append(violation(PROP, "global-state", what, "after thread %d op %d: %s" % (i, k, msg)))
-        if rep["capped"] or not all(rep["finished"]):
+        if rep.get("deadlocked"):
+            vio.append(violation(PROP, "liveness", "deadlock", "a caller thread waits for ever for a lock of the library that no other thread will release"))
+        elif rep["capped"] or not all(rep["finished"]):
             vio.append(violation(PROP, "liveness", "step-cap", "not all threads finished within %d steps" % MAX_STEPS))
         seen = set()
         uniq = []
@@ -766,7 +769,7 @@ class StateEngine(object):
                     "fault.rejected_call_before_probe": 1 if rejected_before_probe else 0,
                     "fault.setctx_between_ops": sum(1 for a in actors for op in a["ops"] if op["op"] == "setctx"),
                     "fault.long_history_before_probe": 1 if any(op.get("noref") for a in actors for op in a["ops"]) else 0,
-                    "cleanroom_refs": len(refs)}
+                    "cleanroom_refs": len(refs), "probe.thread_blocked_on_library_lock": rep.get("lock_waits", 0)}
         for f, c in rep["same_func"].items():
             counters["probe.preempted_while_other_thread_in_same_function:" + f] = c
         for k2, c in rep["probes"].items():
